@@ -1,14 +1,26 @@
-import Gv.Model.Fmt.Fasta
-import Gv.Spec.Fmt
+import Gv.Proofs.FastaOutcome
 /-!
 C03 — parsers terminate on every input with an error or a well-formed result.
 
 Totality of every parser model is discharged by Lean's termination checker (the models are total
-functions `List Byte → Outcome …`).  What remains to be proved per format is that the outcome is never
-`panic` / `hang` and that a success is well formed (`Spec.Fmt.wellFormed`).
+functions `List Byte → Outcome …`).  What is proved per format is that the outcome is never
+`panic` / `hang` and that a success is well formed (`Spec.Fmt.wellFormed`: non-empty, at least one
+column, rectangular with the reported length, names pairwise distinct).
+
+FASTA: the full statement `∀ bs o, Good (Fasta.parse false o bs)` is FALSE for the code as it is
+(`fasta_outcome_counterexample`); proved instead: `fasta_outcome_partial` (everything except
+non-emptiness, and zero rows only for the known empty-record shape) and `fasta_outcome_fixed` (the full
+statement for the parser with the proposed patch; the oracle model switches to it when the regenerated
+fact `Gen.FmtFacts.fasta_rejects_empty` says the patch is in the working tree).
+
+Open (no model yet; judged on the implementation by the oracle predicate on every run, see `PARTIAL`
+in driver/props/c03.py):
+  theorem phylip_outcome / nexus_outcome / clustal_outcome / stockholm_outcome / partition_outcome
+    (bs) (o) : match parse o bs with | .ok r => WellFormed r | .error | .exit => True | .panic | .hang => False
+  — each FALSE for the code as it is (known_findings.jsonl lists the witnesses).
 -/
 namespace Gv.Props.C03
-open Gv Gv.Model Gv.Model.Fmt
+open Gv Gv.Model Gv.Model.Fmt Gv.Proofs.BagInv Gv.Proofs.FastaOutcome
 
 /-- the C03 predicate on a model outcome -/
 def Good : Outcome Aln → Prop
@@ -30,5 +42,67 @@ theorem fasta_outcome_counterexample :
       Fasta.isEOL, Fasta.identChar, Fasta.afterRun, Fasta.GT, NL, CR, Fasta.stripSpaces, SP]
     decide
   rw [h]; decide
+
+/-- the witness has the known empty-record shape (non-vacuity of the last clause below) -/
+example : EmptyRecords [62, 97, 10] := by
+  intro s hs
+  simp [Fasta.lex, Fasta.scan, Fasta.isEOL, Fasta.identChar, Fasta.afterRun, Fasta.GT, NL, CR, seqIdents] at hs
+
+/-- **FASTA, code as it is** (also with the patch): for ALL byte strings and options the model parser
+returns `ok` or `error` — never `panic`, `hang` or `exit` — and a success is rectangular with the
+reported length, has pairwise distinct names, at least one column when it has a row, and has zero rows
+only when no sequence line of the input holds a non-space byte (then the length is −1).
+Missing for the full C03 statement: `a.rows ≠ []` (false, see the counter-example). -/
+theorem fasta_outcome_partial (fix : Bool) (o : POpts) (bs : List Byte) :
+    match Fasta.parse fix o bs with
+    | .ok a => (∀ r ∈ a.rows, (r.2.length : Int) = a.length) ∧
+               Spec.Fmt.distinct (a.rows.map (·.1)) = true ∧
+               (a.rows ≠ [] → 1 ≤ a.length) ∧
+               (a.rows = [] → a.length = -1 ∧ EmptyRecords bs)
+    | .error => True
+    | .exit | .panic | .hang => False := by
+  unfold Fasta.parse
+  cases hpb : Fasta.parseBag o.ignore bs with
+  | none => simp
+  | some b =>
+    have hg := parseBag_good _ _ _ hpb
+    by_cases hc : (fix && b.rows.isEmpty) = true
+    · simp [hc]
+    · cases hf : b.finish (normAlphabet o.alphabet) with
+      | none => simp [hc, hf]
+      | some a =>
+        obtain ⟨hr, hl⟩ := finish_rows b _ a hf
+        simp only [hc, hf, Bool.false_eq_true, ↓reduceIte]
+        rw [hr, hl]
+        refine ⟨hg.1.2.1, hg.1.2.2, hg.2, ?_⟩
+        intro he
+        exact ⟨hg.1.1 he, parseBag_zero_rows _ _ _ hpb he⟩
+
+/-- **FASTA with the proposed patch** (`proposed_fixes/c03-fasta.diff`): the full C03 statement, for all
+byte strings and all options. -/
+theorem fasta_outcome_fixed (o : POpts) (bs : List Byte) : Good (Fasta.parse true o bs) := by
+  unfold Fasta.parse
+  cases hpb : Fasta.parseBag o.ignore bs with
+  | none => simp [Good]
+  | some b =>
+    have hg := parseBag_good _ _ _ hpb
+    by_cases hc : (true && b.rows.isEmpty) = true
+    · simp [hc, Good]
+    · cases hf : b.finish (normAlphabet o.alphabet) with
+      | none => simp [hc, hf, Good]
+      | some a =>
+        obtain ⟨hr, hl⟩ := finish_rows b _ a hf
+        have hne : b.rows ≠ [] := by intro e; simp [e] at hc
+        have hcf : (true && b.rows.isEmpty) = false := by simpa using hc
+        simp only [hcf, hf, Good, Bool.false_eq_true, ↓reduceIte]
+        rw [hr, hl]
+        exact wellFormed_of_inv b hg.1 hg.2 hne
+
+/-- non-vacuity: the patched parser still accepts an ordinary file -/
+example : Fasta.parse true {} [62, 97, 10, 65, 67, 10] = .ok ⟨1, 2, [([97], [65, 67])]⟩ := by
+  simp [Fasta.parse, Fasta.parseBag, Fasta.lex, Fasta.scan, Fasta.skipEol, Fasta.loop, Fasta.body,
+    Fasta.isEOL, Fasta.identChar, Fasta.afterRun, Fasta.GT, NL, CR, Fasta.stripSpaces, Fasta.noSpaces, SP,
+    Bag.add, Bag.find]
+  decide
 
 end Gv.Props.C03
